@@ -287,7 +287,11 @@ def compute_attractor_candidates(
                     solution_limit=sd.config["attractor_candidates_limit"],
                 )
 
-                if len(candidate_states_zero) <= len(candidate_states):
+                if (
+                    len(candidate_states_zero) <= len(candidate_states)
+                    and len(candidate_states_zero)
+                    < sd.config["attractor_candidates_limit"]
+                ):
                     if sd.config["debug"]:
                         print(
                             f"[{node_id}] Chosen {var}=0 without increasing candidate count ({len(candidate_states_zero)}). {len(retained_set)}/{len(node_nfvs)} variables chosen."
